@@ -7,15 +7,18 @@
 // every identity class, with arbitrary claimed SenderId / ReceiverId / Token fields.
 //
 // case:  c <cmdType> p <0|1> f <conn#> s <snd> r <rcv> t <tok|-> b <0|1>
-//        m <map#|-1|-2> g <targetClient> k <code#|-1|-2> d <dom#|-1|-2>
-//        W conns <n> (<N|U|A><clientID>)* maps <n> (<listen>:<target>:<s|t>:<a|i>)*
-//          codes <n> (<target>:<0|1>)* doms <n> (<owner>)*
-//        (first token `x` instead of `c`: excluded point of the model comparison, see ambiguousDefaultTarget)
+//
+//	m <map#|-1|-2> g <targetClient> k <code#|-1|-2> d <dom#|-1|-2>
+//	W conns <n> (<N|U|A><clientID>)* maps <n> (<listen>:<target>:<s|t>:<a|i>)*
+//	  codes <n> (<target>:<0|1>)* doms <n> (<owner>)*
+//	(first token `x` instead of `c`: excluded point of the model comparison, see ambiguousDefaultTarget)
+//
 // obs:   <run> ~ <run>     first run: the packet as given; second run: the same packet with
-//        SenderId/ReceiverId/Token zeroed, in a fresh identical world
-//   run = ret <0|1> rsp <n|o|f> view <refs|-> chg <refs|-> dlv <conn#:cmdType:sender,…|-> gone <conn#,…|->
-//   rsp: class of the CommandResp packets the sender got; dlv: command packets pushed to any connection
-//   (including the sender's own); view: pre-existing objects whose id/secret the sender was shown
+//
+//	     SenderId/ReceiverId/Token zeroed, in a fresh identical world
+//	run = ret <0|1> rsp <n|o|f> view <refs|-> chg <refs|-> dlv <conn#:cmdType:sender,…|-> gone <conn#,…|->
+//	rsp: class of the CommandResp packets the sender got; dlv: command packets pushed to any connection
+//	(including the sender's own); view: pre-existing objects whose id/secret the sender was shown
 package main
 
 import (
@@ -106,18 +109,18 @@ type codeSpec struct {
 	activated bool
 }
 type kase struct {
-	ctype        int
-	resp         bool
-	from         int
-	snd, rcv     string
-	tok          string
-	bad          bool
-	m, k, d      int
-	g            int64
-	conns        []connSpec
-	maps         []mapSpec
-	codes        []codeSpec
-	doms         []int64
+	ctype    int
+	resp     bool
+	from     int
+	snd, rcv string
+	tok      string
+	bad      bool
+	m, k, d  int
+	g        int64
+	conns    []connSpec
+	maps     []mapSpec
+	codes    []codeSpec
+	doms     []int64
 }
 
 func atoi(s string) int { v, _ := strconv.Atoi(s); return v }
